@@ -335,3 +335,29 @@ Theorem C18_serial_read_fragmentation_free : forall s n, 0 <= n <= zlen (concat 
   exists s', read_data n [] s = Some (firstn (Z.to_nat n) (concat s), s') /\ concat s' = skipn (Z.to_nat n) (concat s).
 Proof. exact serial_read_fragmentation_free. Qed.
 Print Assumptions C18_serial_read_fragmentation_free.
+
+(* ---- one CPXPacket object encoded several times ---- *)
+
+(* For EVERY history of attribute assignments (source, destination, function, version, lastPacket, data, or filling the
+   object from received bytes) and encodes (wireData, writePacket) on one packet object, the k-th output is the encoding
+   of the attribute values at that moment — never of earlier ones. *)
+Theorem C18_encode_reflects_current_fields : forall ops p,
+  Forall2 (fun out q => match out with
+                        | Ok b => b = wire_data q \/ b = frame q
+                        | Exc _ => 65533 < zlen (c_data q)
+                        end) (h_run p ops) (h_states p ops).
+Proof. exact h_run_current. Qed.
+Print Assumptions C18_encode_reflects_current_fields.
+
+(* ... and, for attribute values in the enums, decoding the k-th output returns exactly those values (length refreshed) *)
+Theorem C18_encode_history_roundtrip : forall ops p, Forall wf_attrs (h_states p ops) ->
+  Forall2 (fun out q => exists b, out = Ok b /\ (b = wire_data q \/ b = frame q) /\ set_wire (wire_data q) = Ok (refresh q))
+          (h_run p ops) (h_states p ops).
+Proof. exact h_run_decodes. Qed.
+Print Assumptions C18_encode_history_roundtrip.
+
+(* an encoder whose cached routing bytes survive an assignment of ONE field (lastPacket) violates this *)
+Theorem C18_stale_routing_cache_refuted :
+  exists p ops, hc_run p None ops <> map (fun q => wire_data q) (h_states p ops).
+Proof. exact stale_cache_refuted. Qed.
+Print Assumptions C18_stale_routing_cache_refuted.
